@@ -25,10 +25,10 @@ META = dict(
          "__getnewargs__/__getstate__/__setstate__ protocol used by copy.copy, copy.deepcopy and pickle return the same "
          "tokens, name table, list-all names and _name (copy_preserves, pickle_roundtrip, copy_same_answers: every C10 "
          "operation answers a copy like the original); a+b is the merge of list and multimap (concat_is_merge), "
-         "associative (concat_assoc, concat_assoc_of_truthy) with the empty result as right identity always and left "
-         "identity (concat_empty_right/left), sum() is the left fold (sum_is_fold) — under the exact side condition of "
-         "C10.iadd_refines_iff; outside it associativity is false (concat_assoc_fails_witness, registered finding "
-         "concat_assoc_falsy_listall). Aliasing, heap model (PPProofs/Props/C11Heap.lean; list cells, dict cells, "
+         "associative (concat_assoc) with the empty result as right and left "
+         "identity (concat_empty_right/left), sum() is the left fold (sum_is_fold) — for all well-formed operands, no "
+         "side condition (concat_assoc_former_witness = regression witness of the fixed finding "
+         "concat_assoc_falsy_listall, pyparsing 448d339). Aliasing, heap model (PPProofs/Props/C11Heap.lean; list cells, dict cells, "
          "occurrence-list cells, objects with identity): frame_step/frame_all (any sequence of own-token/own-name "
          "mutations of an object leaves the view of every object with separate list and dict cell unchanged, although "
          "occurrence lists are shared and rewritten in place), copy_frame and copyModule_frame (copy() and the "
@@ -61,11 +61,10 @@ THEOREMS = [
     "PP.PR.copy_same_answers",
     "PP.PR.concat_is_merge",
     "PP.PR.concat_assoc",
-    "PP.PR.concat_assoc_of_truthy",
     "PP.PR.concat_empty_right",
     "PP.PR.concat_empty_left",
     "PP.PR.sum_is_fold",
-    "PP.PR.concat_assoc_fails_witness",
+    "PP.PR.concat_assoc_former_witness",
 ]
 
 KINDS = ["copy", "copy.copy", "deepcopy", "copy.deepcopy", "pickle"]
@@ -263,11 +262,6 @@ def concat_check(pp, case, allow_region=False):
         a, b, c = (prlib.build_start(pp, s) for s in case["objs"])
     except prlib.ERRS:
         return None
-    if not allow_region:
-        ab = a + b
-        bc = b + c
-        if in_region(pp, a, b) or in_region(pp, b, c) or in_region(pp, ab, c) or in_region(pp, a, bc):
-            return "region"
     snaps = [snapshot(pp, x) for x in (a, b, c)]
     sa, sb, sc = (prlib.Spec.of_real(pp, x) for x in (a, b, c))
     ab = a + b
@@ -291,7 +285,7 @@ def concat_check(pp, case, allow_region=False):
     e = PR([])
     if snapshot(pp, a + e) != snapshot(pp, a.copy()):
         return ("a + empty != a", snapshot(pp, a.copy()), snapshot(pp, a + e))
-    if not in_region(pp, e, a) and snapshot(pp, e + a) != snapshot(pp, a.copy()):
+    if snapshot(pp, e + a) != snapshot(pp, a.copy()):
         return ("empty + a != a", snapshot(pp, a.copy()), snapshot(pp, e + a))
     if [snapshot(pp, x) for x in (a, b, c)] != snaps:
         return ("+ / sum changed an operand", snaps, [snapshot(pp, x) for x in (a, b, c)])
@@ -397,7 +391,8 @@ def run(ctx):
         "constructor calls); kinds copy()/copy.copy/deepcopy()/copy.deepcopy/pickle; frames: 1..6 own mutations (the 15 "
         "mutating C10 operations) of copy or original, for the deep kinds also of nested groups reached through tokens "
         "and names; concatenation triples; from_dict on random nested non-empty dicts of scalars and (nested) lists; "
-        f"generators stay out of the regions of the registered findings {SIG_ASSOC} and {SIG_DEEP}")
+        f"generators stay out of the region of the registered finding {SIG_DEEP} only; the witness of the fixed finding "
+        f"{SIG_ASSOC} runs as an ordinary regression case and its former region is generated")
     # ---- registered witnesses / fixed cases ------------------------------------------------------------------
     bad = frame_case(pp, DEEP_WITNESS)
     if bad is not None:
@@ -406,7 +401,7 @@ def run(ctx):
     w = concat_check(pp, ASSOC_WITNESS, allow_region=True)
     if w is not None and w != "region":
         ctx.fail_input("concatenation is not associative when an empty operand carries a list-all name",
-                       ASSOC_WITNESS, w[1], w[2], theorem="PP.PR.concat_assoc_fails_witness", signature=SIG_ASSOC)
+                       ASSOC_WITNESS, w[1], w[2], theorem="PP.PR.concat_assoc_former_witness")
     nfix = 2
     for case in FRAME_FIXED:
         nfix += 1
